@@ -17,7 +17,7 @@ use yara_x_parser::Parser;
 
 const CHILD_STACK: usize = 512 << 20;
 static PANIC_LOC: std::sync::Mutex<String> = std::sync::Mutex::new(String::new());
-const CASE_TIMEOUT_S: u64 = 60;
+const CASE_TIMEOUT_S: u64 = 30;
 
 #[derive(Default, Clone)]
 struct Obs {
@@ -26,7 +26,7 @@ struct Obs {
     labels: Vec<(usize, usize, bool, bool)>, rendered_len: usize,
     declared: Vec<String>, built: Vec<String>, ignored: Vec<String>, ast_rules: Option<Vec<String>>,
     utf8_err: Option<(usize, Option<usize>)>, e032_span: Option<(usize, usize)>, max_depth: usize,
-    codes: Vec<String>,
+    codes: Vec<String>, wcodes: Vec<String>, multiline_fix: bool,
 }
 
 fn declared_rules(src: &[u8]) -> (Vec<String>, usize) {
@@ -58,7 +58,9 @@ fn observe(src: &[u8]) -> Obs {
     o.nerr = c.errors().len(); o.nwarn = c.warnings().len();
     o.render_ok = true;
     for e in c.errors() {
-        if e.to_string().is_empty() || e.title().is_empty() { o.render_ok = false; }
+        // every way a diagnostic is rendered: Display, Debug, JSON
+        if e.to_string().is_empty() || e.title().is_empty() || format!("{:?}", e).is_empty() { o.render_ok = false; }
+        if serde_json::to_string(e).map(|s| s.is_empty()).unwrap_or(true) { o.render_ok = false; }
         o.codes.push(e.code().to_string());
         for l in e.labels() {
             let (a, b) = (l.span().start(), l.span().end());
@@ -67,10 +69,19 @@ fn observe(src: &[u8]) -> Obs {
         }
     }
     for w in c.warnings() {
-        if w.to_string().is_empty() || w.title().is_empty() { o.render_ok = false; }
+        if w.to_string().is_empty() || w.title().is_empty() || format!("{:?}", w).is_empty() { o.render_ok = false; }
+        if serde_json::to_string(w).map(|s| s.is_empty()).unwrap_or(true) { o.render_ok = false; }
+        o.wcodes.push(w.code().to_string());
         for l in w.labels() {
             let (a, b) = (l.span().start(), l.span().end());
             o.labels.push((a, b, rendered.is_char_boundary(a), rendered.is_char_boundary(b)));
+        }
+        // the suggested fixes: their spans are locations too
+        for p in w.patches() {
+            let (a, b) = (p.span().start(), p.span().end());
+            let _ = p.replacement().len();
+            o.labels.push((a, b, rendered.is_char_boundary(a), rendered.is_char_boundary(b)));
+            if rendered.get(a..b).map(|t| t.contains('\n')).unwrap_or(false) { o.multiline_fix = true; }
         }
     }
     o.ignored = c.ignored_rules().map(|(n, _)| n.to_string()).collect();
@@ -82,13 +93,13 @@ fn observe(src: &[u8]) -> Obs {
 
 fn obs_json(o: &Obs) -> String {
     let strs = |v: &Vec<String>| format!("[{}]", v.iter().map(|s| json_str(s)).collect::<Vec<_>>().join(","));
-    format!("{{\"panicked\":{},\"add_ok\":{},\"nerr\":{},\"nwarn\":{},\"render_ok\":{},\"build_ok\":{},\"labels\":[{}],\"rendered_len\":{},\"declared\":{},\"built\":{},\"ignored\":{},\"ast_rules\":{},\"utf8_err\":{},\"e032_span\":{},\"max_depth\":{},\"codes\":{}}}",
+    format!("{{\"panicked\":{},\"add_ok\":{},\"nerr\":{},\"nwarn\":{},\"render_ok\":{},\"build_ok\":{},\"labels\":[{}],\"rendered_len\":{},\"declared\":{},\"built\":{},\"ignored\":{},\"ast_rules\":{},\"utf8_err\":{},\"e032_span\":{},\"max_depth\":{},\"codes\":{},\"wcodes\":{},\"multiline_fix\":{}}}",
         match &o.panicked { Some(m) => json_str(m), None => "null".into() }, o.add_ok, o.nerr, o.nwarn, o.render_ok, o.build_ok,
         o.labels.iter().map(|(a, b, x, y)| format!("[{},{},{},{}]", a, b, x, y)).collect::<Vec<_>>().join(","), o.rendered_len,
         strs(&o.declared), strs(&o.built), strs(&o.ignored),
         match &o.ast_rules { Some(v) => strs(v), None => "null".into() },
         match &o.utf8_err { Some((v, Some(n))) => format!("[{},{}]", v, n), Some((v, None)) => format!("[{},null]", v), None => "null".into() },
-        match &o.e032_span { Some((a, b)) => format!("[{},{}]", a, b), None => "null".into() }, o.max_depth, strs(&o.codes))
+        match &o.e032_span { Some((a, b)) => format!("[{},{}]", a, b), None => "null".into() }, o.max_depth, strs(&o.codes), strs(&o.wcodes), o.multiline_fix)
 }
 
 fn obs_from_json(s: &str) -> Option<Obs> {
@@ -103,7 +114,7 @@ fn obs_from_json(s: &str) -> Option<Obs> {
         declared: strs(&v["declared"])?, built: strs(&v["built"])?, ignored: strs(&v["ignored"])?, ast_rules: strs(&v["ast_rules"]),
         utf8_err: v["utf8_err"].as_array().map(|a| (a[0].as_u64().unwrap() as usize, a[1].as_u64().map(|x| x as usize))),
         e032_span: v["e032_span"].as_array().map(|a| (a[0].as_u64().unwrap() as usize, a[1].as_u64().unwrap() as usize)),
-        max_depth: v["max_depth"].as_u64()? as usize, codes: strs(&v["codes"])?,
+        max_depth: v["max_depth"].as_u64()? as usize, codes: strs(&v["codes"])?, wcodes: strs(&v["wcodes"]).unwrap_or_default(), multiline_fix: v["multiline_fix"].as_bool().unwrap_or(false),
     })
 }
 
@@ -172,7 +183,7 @@ fn run_in_children(cases: &[Vec<u8>], dir: &Path) -> Vec<Obs> {
     res.into_iter().map(|o| o.unwrap_or_else(|| { let mut o = Obs::default(); o.crashed = true; o })).collect()
 }
 
-fn corpus() -> Vec<(String, Vec<u8>)> {
+fn corpus(thorough: bool) -> Vec<(String, Vec<u8>)> {
     let mut v: Vec<(String, Vec<u8>)> = vec![];
     let mut add = |n: &str, s: Vec<u8>| v.push((n.to_string(), s));
     add("corpus", b"rule a {condition: true}".to_vec());
@@ -184,9 +195,108 @@ fn corpus() -> Vec<(String, Vec<u8>)> {
     add("corpus", b"rule \xf0\x9f\x98 {condition: true}".to_vec());
     add("corpus", "rule a {condition: \"é\" == €}".as_bytes().to_vec());
     add("corpus", b"rule a {condition: for any i in (0x7ffffffffffffffe..0x7fffffffffffffff) : (i > 0)}".to_vec());
+    // crashes with overflow checks on (dev profile), repaired by 46fdbbba and 1eeaceb7
+    // repaired by 46fdbbba (coalesced jump bounds overflowed u32). The end-bound sum answers at once; the
+    // start-bound sum now saturates to a huge fixed jump (the known slow class below), so that input is
+    // only run in the thorough tier, where its time-out is classified under the huge-jump fingerprint
+    add("corpus", b"rule r { strings: $a = { 01 [0-4294967295][0-1] 02 } condition: $a }".to_vec());
+    if thorough { add("corpus", b"rule r { strings: $a = { 01 [4294967295][1] 02 } condition: $a }".to_vec()); }
+    add("corpus", b"rule r { condition: -(-9223372036854775807 - 1) == 0 }".to_vec());
+    // compile time proportional to the value of a fixed jump: no answer within the time limit
+    add("corpus", b"rule r { strings: $a = { 01 [4294967295] 02 } condition: $a }".to_vec());
+    // invalid byte as the last byte of the source
+    add("corpus", b"rule r { condition: true } \xff".to_vec());
+    add("corpus", b"rule r { condition: true }\xe2\x82".to_vec());
+    add("corpus", b"rule r { strings: $a = \"foo\" xor(1KB) condition: $a }".to_vec());
+    add("corpus", b"rule r { strings: $a = \"foo\" xor(0-1MB) condition: $a }".to_vec());
+    add("corpus", "rule r { strings: $a = \u{201c}aaaaaaaaaaa\u{e9}bbbbbbbbbbbbb\u{201d} condition: $a }".as_bytes().to_vec());
+    add("corpus", b"rule r { strings: $a = { 61 62\n 63 64 } condition: $a }".to_vec());
+    add("corpus", b"rule r { strings: $a = { 01 [1]\n [2] 02 } condition: $a }".to_vec());
     // DESIGN.md section 7 #14: a rule nested deeper than MAX_AST_DEPTH between two good rules
     add("depth_limit", format!("rule a{{condition:true}} rule deep{{condition: {}true}} rule b{{condition:true}}", "not ".repeat(2999)).into_bytes());
     v
+}
+
+/// a syntax error ON a long token (> 15 bytes) that holds 2-, 3- or 4-byte characters at a varied byte offset
+fn gen_long_token_error(rng: &mut Rng) -> Vec<u8> {
+    let ch = *rng.pick(&["\u{e9}", "\u{20ac}", "\u{1f600}", "\u{4e2d}", "\u{7ff}", "\u{10ffff}"]);
+    // half of the time the multi-byte run lies across byte offsets 10..18 of the token (15 is where messages truncate)
+    let before = if rng.chance(1, 2) { 8 + rng.below(10) as usize } else { rng.below(30) as usize };
+    let after = rng.below(20) as usize;
+    let reps = 1 + rng.below(8) as usize;
+    let body = format!("{}{}{}", "a".repeat(before), ch.repeat(reps), "b".repeat(after));
+    let tok = match rng.below(7) {
+        0 => format!("\"{}\"", body),                       // string literal where it is a syntax error
+        1 => format!("/{}x/", body),                        // regexp
+        2 => format!("\u{201c}{}\u{201d}", body),           // typographic quotes: UNKNOWN token
+        3 => format!("\"{}", body),                         // unclosed string
+        4 => format!("/*{}", body),                         // unclosed comment
+        5 => format!("{}{}", ch, body),                     // unknown token starting with a non-ASCII char
+        _ => format!("'{}'", body),
+    };
+    let s = match rng.below(9) {
+        0 => format!("rule r {{ strings: $a = {} condition: $a }}", tok),
+        1 => format!("rule r {{ condition: true {} }}", tok),
+        2 => format!("rule {} {{ condition: true }}", tok),
+        3 => format!("rule r {{ meta: a = {} condition: true }}", tok),
+        4 => format!("{} rule r {{ condition: true }}", tok),
+        5 => format!("rule r {{ condition: {} }}", tok),
+        6 => format!("rule r : {} {{ condition: true }}", tok),
+        7 => format!("import {} rule r {{ condition: true }}", tok),
+        _ => format!("rule r {{ strings: $a = \"x\" {} condition: $a }}", tok),
+    };
+    s.into_bytes()
+}
+
+/// out-of-range and KB/MB-suffixed integer literals in every literal position of the grammar
+fn gen_int_literal_position(rng: &mut Rng) -> Vec<u8> {
+    let lit = rng.pick(&["0", "1", "255", "256", "1KB", "1MB", "2KB", "300", "65536", "4294967295", "4294967296", "0x100", "0xFFFFFFFF",
+        "0x1_0000_0000", "9223372036854775807", "9223372036854775808", "18446744073709551616", "8388608MB", "9007199254740993KB",
+        "0o400", "1_0", "1__KB", "00", "0x7fffffffffffffff", "-1", "- 1"]).to_string();
+    let lit2 = rng.pick(&["1", "0", "1KB", "255", "256", "4294967295", "1MB"]).to_string();
+    // hex jumps: compiling `[N]` takes time proportional to N (about 13 s for 1e8 in the dev profile; the
+    // corpus holds one such input), so the generated jump bounds stay below 1e6
+    let jl = rng.pick(&["0", "1", "2", "200", "201", "255", "256", "65535", "65536", "999999", "1KB", "1MB", "0x10", "0x1_0", "0o17", "00", "-1"]).to_string();
+    let jl2 = rng.pick(&["0", "1", "3", "1KB", "300"]).to_string();
+    let s = match rng.below(20) {
+        0 => format!("rule r {{ strings: $a = \"foo\" xor({}) condition: $a }}", lit),
+        1 => format!("rule r {{ strings: $a = \"foo\" xor({}-{}) condition: $a }}", lit2, lit),
+        2 => format!("rule r {{ strings: $a = \"foo\" xor({}-{}) condition: $a }}", lit, lit2),
+        3 => format!("rule r {{ strings: $a = {{ 01 [{}] 02 }} condition: $a }}", jl),
+        4 => format!("rule r {{ strings: $a = {{ 01 [{}-{}] 02 }} condition: $a }}", jl2, jl),
+        5 => format!("rule r {{ strings: $a = {{ 01 [{}-] 02 }} condition: $a }}", jl),
+        6 => format!("rule r {{ strings: $a = {{ 01 [{}][{}] 02 ( 03 [{}-{}] 04 | 05 ) }} condition: $a }}", jl, jl2, jl2, jl),
+        7 => format!("rule r {{ strings: $a = \"foo\" base64(\"{}\") condition: $a }}", "A".repeat(rng.below(70) as usize)),
+        8 => format!("rule r {{ condition: filesize == {} }}", lit),
+        9 => format!("rule r {{ condition: for any i in (0..{}) : (i == {}) }}", lit, lit2),
+        10 => format!("rule r {{ condition: for any i in ({}..{}) : (true) }}", lit, lit2),
+        11 => format!("rule r {{ strings: $a = \"x\" condition: {}% of them }}", lit),
+        12 => format!("rule r {{ strings: $a = \"x\" condition: {} of them }}", lit),
+        13 => format!("rule r {{ strings: $a = \"x\" condition: #a in (0..{}) > {} }}", lit, lit2),
+        14 => format!("rule r {{ strings: $a = \"x\" condition: @a[{}] == 0 or !a[{}] == 0 }}", lit, lit2),
+        15 => format!("rule r {{ strings: $a = \"x\" condition: $a at {} or $a in ({}..{}) }}", lit, lit2, lit),
+        16 => format!("rule r {{ condition: uint8({}) == 0 or 1 << {} == 0 }}", lit, lit2),
+        17 => format!("rule r {{ meta: m = {} condition: true }}", lit),
+        18 => format!("rule r {{ condition: -({}) == 0 or -(-{} - 1) == 0 or {} \\ {} == 1 or {} % {} == 1 }}", lit, lit, lit, lit2, lit, lit2),
+        _ => format!("rule r {{ condition: for any i in ({}, {}) : (i * {} + {} - {} > 0) }}", lit, lit2, lit, lit, lit2),
+    };
+    s.into_bytes()
+}
+
+/// warnings whose suggested fix spans more than one line
+fn gen_multiline_fix(rng: &mut Rng) -> Vec<u8> {
+    let nl = *rng.pick(&["\n", "\r\n", "\n\n", " \n ", "\n\t", " // c\n", " /* c\n */ "]);
+    let s = match rng.below(8) {
+        0 => format!("rule r {{ strings: $a = {{ 61 62{}63 64 }} condition: $a }}", nl),
+        1 => format!("rule r {{ strings: $a = {{{}61 62 63 64 65{}}} condition: $a }}", nl, nl),
+        2 => format!("rule r {{ strings: $a = {{ 01 [1]{}[2] 02 }} condition: $a }}", nl),
+        3 => format!("rule r {{ strings: $a = {{ 01 [1-2]{}[3-4]{}[5] 02 }} condition: $a }}", nl, nl),
+        4 => format!("import \"pe\"{}import \"pe\" rule r {{ condition:{}true }}", nl, nl),
+        5 => format!("rule r {{ strings: $a = \"abc\" condition: not{}defined{}$a or 0 of{}them or true == 1 }}", nl, nl, nl),
+        6 => format!("rule r {{ strings: $a = {{ 4D 5A{}}} $b = {{ 30{}31 32 33 }} condition: any{}of them at 0 }}", nl, nl, nl),
+        _ => format!("rule r {{ condition: pe.is_pe{}=={}1 and 1{}=={}true }}", nl, nl, nl, nl),
+    };
+    s.into_bytes()
 }
 
 fn main() { let args: Vec<String> = std::env::args().skip(1).collect(); std::process::exit(run(&args)); }
@@ -211,7 +321,7 @@ fn run(args: &[String]) -> i32 {
     let n = arg_u64(args, "--n", 400) as usize;
     let max_nest = arg_u64(args, "--max-nest", 200);
     let mut rng = Rng::new(seed);
-    let mut cases: Vec<(String, Vec<u8>)> = corpus();
+    let mut cases: Vec<(String, Vec<u8>)> = corpus(n >= 4000);
     if n >= 400 {
         // invalid UTF-8 at EVERY position of one small valid rule, for three kinds of bad sequence
         let base = b"rule r {condition: \"\xc3\xa9\" == \"e\"}".to_vec();
@@ -224,7 +334,15 @@ fn run(args: &[String]) -> i32 {
         }
     }
     while cases.len() < n {
-        let c = match rng.below(12) {
+        let c = match rng.below(19) {
+            12 | 13 => ("long_token_error".to_string(), gen_long_token_error(&mut rng)),
+            14 | 15 => ("int_literal_position".to_string(), gen_int_literal_position(&mut rng)),
+            16 | 18 => ("multiline_fix".to_string(), gen_multiline_fix(&mut rng)),
+            17 => { // invalid bytes at the very end of the source
+                let mut v = format!("rule r{} {{ condition: true }}{}", rng.below(9), rng.pick(&["", " ", "\n"])).into_bytes();
+                v.extend_from_slice(*rng.pick(&[&[0xffu8][..], &[0xc3], &[0xe2, 0x82], &[0xf0, 0x9f, 0x98], &[0x80], &[0xe2, 0x28], &[0xed, 0xa0]]));
+                ("invalid_utf8_at_end".to_string(), v)
+            }
             0 => { // invalid UTF-8 at every position of a small valid rule: pick one position
                 let mut v = format!("rule r{} {{ condition: {} }}", rng.below(9), gen_bool(&mut rng, 1)).into_bytes();
                 let p = rng.below(v.len() as u64 + 1) as usize;
@@ -285,6 +403,8 @@ fn run(args: &[String]) -> i32 {
         if o.nwarn > 0 { stats.inc("has_warning"); }
         stats.inc(&format!("depth_{}", match o.max_depth { 0..=9 => "0-9", 10..=49 => "10-49", 50..=199 => "50-199", 200..=999 => "200-999", _ => "1000+" }));
         for c in &o.codes { stats.inc(&format!("code_{}", c)); }
+        for c in &o.wcodes { stats.inc(&format!("warn_{}", c)); }
+        if o.multiline_fix { stats.inc("fix_spans_several_lines"); }
         if src.len() >= 10 { distinct.insert(src.clone()); }
         if samples.len() < 3 && o.nerr > 0 && src.len() < 300 { samples.push(replay.clone()); }
         shards.push(case, replay);
